@@ -1,5 +1,6 @@
 import Verif.Model.Trace
 import Verif.Proofs.FlattenPipeline
+import Verif.Proofs.FlattenImport
 
 /-!
 # C10 — the analyzer handed to Flatten stays in sync with the document
@@ -66,5 +67,11 @@ theorem pipeline_in_sync (fc : Facts) (x : Flatten.Ext) (o : Flatten.Opts) (fuel
     (h : Flatten.flattenLocal fc x o fuel s = .ok s') :
     s'.idx = Analyzer.analyze fc s'.doc :=
   Proofs.FlattenPipeline.flattenLocal_inSync fc x o fuel s s' h
+
+/-- the same for the pipeline with the real import loop (multi-document bundles) -/
+theorem pipeline_in_sync_multi (fc : Facts) (x : Flatten.Ext) (o : Flatten.Opts) (fuel : Nat) (s s' : Flatten.St)
+    (h : Flatten.flatten fc x o fuel s = .ok s') :
+    s'.idx = Analyzer.analyze fc s'.doc :=
+  Proofs.FlattenImport.flatten_inSync fc x o fuel s s' h
 
 end C10
